@@ -316,6 +316,7 @@ def _get_nbits_from_value( value ):
     return 1
   # exact integer arithmetic: float log2 is off by one from 2**49 on
   if value < 0:
-    return (abs(value)-1).bit_length()
+    # BitsN holds -2**(N-1) .. 2**N-1
+    return (abs(value)-1).bit_length() + 1
   else:
     return value.bit_length()
